@@ -42,7 +42,7 @@ def specs(T):
     T.body_contains(S, 'transfer_fields', 'bins_start = cnarr.start.iat[0]')
     T.body_contains(S, 'transfer_fields', 'bins_end = cnarr.end.iat[-1]')
     T.body_contains(S, 'transfer_fields', 'ignore = tuple(ignore) + params.ANTITARGET_ALIASES')
-    T.body_contains(S, 'transfer_fields', "iter_slices(cdata, segments.data, 'outer', False)")
+    T.body_contains(S, 'transfer_fields', "iter_slices(cdata, segments.data, 'outer', True)")
     T.body_contains(S, 'transfer_fields', 'if seg_wt > 0:')
     if 'ignore=params.IGNORE_GENE_NAMES' not in T.func_source(S, 'transfer_fields'):
         raise T.Refuse('transfer_fields: default ignore is not params.IGNORE_GENE_NAMES')
